@@ -14,7 +14,8 @@ from ..core.panics import TABLES
 CONFIGS = {'quick': ['A'], 'thorough': ['A', 'C', 'D']}     # psk feature absent from B
 LEVEL = 'other'
 TECHNIQUE = ('def-use wiring of the PSK ids and PSK secret through resolver, key schedule and Welcome; guard extraction for the '
-             'PSK admission rules; failure atomicity on the missing-PSK path')
+             'PSK admission rules; failure atomicity (mod-set x CFG reachability) at the PSK failure points; offset / reachability analysis of '
+             'the three-tier resumption-secret lookup')
 EXPLANATION = ('WIRE: the PSK secret fed to the key schedule of the new epoch (committer, receiver, joiner) is the one calculated '
                'from exactly the PSK ids of the applied proposals / of the Welcome, resolved in order, each paired with its own '
                'id; the same secret feeds the welcome secret and the ids are published in every GroupSecrets; PskSecret::calculate '
